@@ -459,7 +459,12 @@ func (p *parser) parseASCII(minLength, maxLength int) (item ast.ItemNode, ok boo
 
 			if _, ok := p.variableNames[t.val]; ok {
 				p.errorf(t, "duplicated variable name %q", t.val)
-				return ast.NewASCIINode(strings.Repeat("*", minLength)), true
+				// placeholder of the declared size; no item can be longer than the SECS-II limit
+				placeholderLength := minLength
+				if placeholderLength > ast.MAX_BYTE_SIZE {
+					placeholderLength = ast.MAX_BYTE_SIZE
+				}
+				return ast.NewASCIINode(strings.Repeat("*", placeholderLength)), true
 			} else {
 				p.variableNames[t.val] = true
 				return ast.NewASCIINodeVariable(t.val, minLength, maxLength), true
